@@ -16,7 +16,7 @@ RULE = ('(a) byte snapshots of every array argument before/after every call of t
         'workloads of C01 C02 C03 C04 C05 C06 C07 C08 C09 C13 run; (b) all binary operators/functions with both operands the same '
         'object and all in-place operators with the right operand {same object, full view, transposed view, reversed view, '
         'overlapping slice} x D in 1..4 x P in 1..3 x shapes; class = (call name, nested?) for (a), (op, alias kind, D, P, shape) '
-        'for (b); non-trivial = the call received at least one array argument')
+        'for (b); (c) objects handed to a graph earlier (recording value, evaluation points, seeds) re-inspected after a sequence of later evaluations, sweeps and drivers; non-trivial = the call received at least one array argument')
 ASSUMPTIONS = ['the operation on independent copies is the reference for aliased forms',
                'views returned by getitem/transpose/reshape are not modifications; in-place operators may change only the left operand; '
                'pb_* may change only their out= accumulators']
@@ -24,7 +24,7 @@ ALIAS = ['same', 'fullview', 'transposed', 'reversed', 'overlap', 'left-is-view'
 BIN = {'add': operator.add, 'sub': operator.sub, 'mul': operator.mul, 'div': operator.truediv, 'pow': operator.pow,
        'dot': algopy.dot, 'outer': algopy.outer, 'minimum': algopy.minimum, 'maximum': algopy.maximum}
 IOP = {'iadd': operator.iadd, 'isub': operator.isub, 'imul': operator.imul, 'idiv': operator.itruediv}
-REQUIRED = ['immutability:op', 'immutability:pb', 'immutability:tracer', 'alias:floordiv'] + ['alias:' + k for k in BIN] + ['alias:' + k for k in IOP]
+REQUIRED = ['immutability:op', 'immutability:pb', 'immutability:tracer', 'alias:floordiv', 'retained-inputs'] + ['alias:' + k for k in BIN] + ['alias:' + k for k in IOP]
 
 _mon = None
 
@@ -53,6 +53,8 @@ def cases(tier, seed):
         for shape in [(3,), (2, 2), (3, 3), ()]:
             for op in list(BIN) + list(IOP):
                 out.append({'kind': 'alias', 'seed': case_seed('C14', seed, D, P, shape, op), 'params': {'D': D, 'P': P, 'shape': list(shape), 'op': op}})
+        for k in range(6 if tier == 'quick' else 40):
+            out.append({'kind': 'retained', 'seed': case_seed('C14', seed, 'retained', D, P, k), 'params': {'D': D, 'P': P}})
         for k in range(2):
             out.append({'kind': 'floordiv', 'seed': case_seed('C14', seed, 'floordiv', D, P, k), 'params': {'D': D, 'P': P}})
     return out
@@ -77,6 +79,53 @@ def _floordiv(ctx, p, rng):
     ctx.ok('alias:floordiv', ('floordiv', D, P))
 
 
+def _retained(ctx, p, rng):
+    """every object the user handed to the graph - the value it was recorded with, the points of earlier evaluations, the seeds
+    of earlier sweeps - is kept by the caller and must be unchanged at the end of a sequence of evaluations, sweeps and drivers
+    (the per-call snapshots of the monitor only see the arguments of the call in progress)"""
+    from .. import progs
+    D, P = p['D'], p['P']
+    cands = [q for q in progs.cat() if len(q.ins) == 1 and not q.maxD and not ({'refused', 'nopb', 'fancy', 'nonunique', 'buffer'} & q.tags)]
+    q = cands[int(rng.integers(len(cands)))]
+    shape, dom = q.ins[0]
+    w = None
+
+    def gs(x):
+        y = q.f(x)
+        return algopy.sum(y * w) if w is not None else algopy.sum(y)
+    kept = []
+
+    def keep(role, o):
+        kept.append((role, o, (o.data if isinstance(o, UTPM) else np.asarray(o)).copy()))
+        return o
+    mk = lambda: UTPM(gen.series_data(rng, D, P, tuple(shape), dom, 'random', False, 0.3))
+    pt = lambda: gen.base_sampler(dom)(rng, tuple(shape))
+    try:
+        rec_utpm = rng.random() < 0.6
+        x0 = keep('recording-value', mk() if rec_utpm else pt())
+        cg, y0 = progs.record(gs, [x0])
+        for step in range(int(rng.integers(3, 7))):
+            r = int(rng.integers(5))
+            if r == 0:
+                cg.pushforward([keep('pushforward-point', mk())])
+                cg.pullback([keep('pullback-seed', UTPM(rng.normal(size=(D, P))))])
+            elif r == 1:
+                cg.pushforward([keep('pushforward-point', mk())])
+            elif r == 2 and len(shape) == 1:
+                cg.gradient(keep('gradient-point', pt()))
+            elif r == 3:
+                cg.function([keep('function-point', pt())])
+            elif len(shape) == 1:
+                cg.hess_vec(keep('hess_vec-point', pt()), keep('hess_vec-direction', rng.normal(size=shape)))
+    except Exception as e:
+        ctx.skip('unsupported:retained:' + q.name); return
+    for role, o, snap in kept:
+        now = o.data if isinstance(o, UTPM) else np.asarray(o)
+        if now.shape != snap.shape or not np.array_equal(now, snap, equal_nan=True):
+            ctx.violation('retained-input-changed-by-later-call:%s' % role, {'program': q.name, 'role': role, 'D': D, 'P': P, 'objects_kept': [r_ for r_, _, _ in kept]}); return
+    ctx.ok('retained-inputs', ('retained', q.name, D, P))
+
+
 def run_case(ctx, case):
     if case['kind'] == 'pool':
         return pool.run_host(case)
@@ -88,6 +137,8 @@ def run_case(ctx, case):
             probe.S.suppress = False
     if case['kind'] == 'floordiv':
         return _floordiv(ctx, case['params'], gen.rng_of(case))
+    if case['kind'] == 'retained':
+        return _retained(ctx, case['params'], gen.rng_of(case))
     p = case['params']
     rng = gen.rng_of(case)
     D, P, shape, op = p['D'], p['P'], tuple(p['shape']), p['op']
